@@ -600,9 +600,14 @@ func (x *g) msg() *Node {
 				pl.E = x.use(vs[0])
 			}
 		}
-		pl.Conds = append(pl.Conds, &Cond{E: "0", Body: x.msgBody(1 + x.pick(2))})
-		if x.chance(0.6) {
+		// {case 1}{default} is the shape a PO catalogue can represent
+		switch x.pick(5) {
+		case 0, 1:
 			pl.Conds = append(pl.Conds, &Cond{E: "1", Body: x.msgBody(1 + x.pick(3))})
+		case 2:
+			pl.Conds = append(pl.Conds, &Cond{E: "0", Body: x.msgBody(1 + x.pick(2))})
+		default:
+			pl.Conds = append(pl.Conds, &Cond{E: "0", Body: x.msgBody(1 + x.pick(2))}, &Cond{E: "1", Body: x.msgBody(1 + x.pick(3))})
 		}
 		pl.Else = x.msgBody(1 + x.pick(3))
 		n.Body = []*Node{pl}
